@@ -21,7 +21,6 @@ import (
 	"sync"
 	"time"
 
-	"github.com/gorilla/websocket"
 	"github.com/zenon-network/go-zenon/common/types"
 	. "zharness/hz"
 )
@@ -563,6 +562,7 @@ type reply struct {
 	kind    int64 // 0 = result, otherwise the error code
 	result  json.RawMessage
 	well    bool
+	crashed bool // "method handler crashed": a panic inside the API method, contained by callback.call
 }
 type replyDoc struct {
 	batch   bool
@@ -601,6 +601,7 @@ func parseReply(raw json.RawMessage) reply {
 			if r.kind == 0 {
 				r.kind = 1
 			}
+			r.crashed = *e.Message == "method handler crashed"
 		}
 	} else {
 		r.result = res
@@ -741,28 +742,31 @@ func viaRawHTTP(c *child, body []byte, ctype string) outcome {
 
 // websocket: one message per document; `wait` answers are awaited (the sentinels are the last documents)
 func viaWS(c *child, msgs [][]byte, wait int, lastID string) outcome {
-	d := websocket.Dialer{HandshakeTimeout: 20 * time.Second}
-	conn, _, err := d.Dial(c.info.WS, nil)
+	conn, err := dialWS(c.info.WS)
 	if err != nil {
 		return outcome{terr: "dial: " + err.Error()}
 	}
-	defer conn.Close()
-	conn.SetReadLimit(256 << 20)
-	for _, m := range msgs {
-		conn.SetWriteDeadline(time.Now().Add(30 * time.Second))
-		if err := conn.WriteMessage(websocket.TextMessage, m); err != nil {
-			break // the server may have closed after a malformed message already
+	defer conn.close()
+	go func() {
+		for _, m := range msgs {
+			conn.c.SetWriteDeadline(time.Now().Add(30 * time.Second))
+			if conn.writeText(m) != nil {
+				return // the server may have closed after a malformed message already
+			}
 		}
-	}
+	}()
 	var all []byte
 	got := 0
 	sawLast := false
-	conn.SetReadDeadline(time.Now().Add(30 * time.Second))
+	conn.c.SetReadDeadline(time.Now().Add(30 * time.Second))
 	for got < wait || !sawLast {
-		_, m, err := conn.ReadMessage()
+		m, err := conn.readMessage()
 		if err != nil {
-			if websocket.IsCloseError(err, websocket.CloseNormalClosure, websocket.CloseGoingAway, websocket.CloseAbnormalClosure, websocket.CloseNoStatusReceived) || err == io.EOF || strings.Contains(err.Error(), "EOF") || strings.Contains(err.Error(), "reset") {
+			if err == errWSClosed || err == io.EOF || err == io.ErrUnexpectedEOF || strings.Contains(err.Error(), "reset") {
 				return outcome{body: all, closed: true}
+			}
+			if sawLast {
+				return outcome{body: all} // a reply is missing: the oracle says which
 			}
 			return outcome{terr: "read: " + err.Error(), body: all}
 		}
@@ -770,6 +774,8 @@ func viaWS(c *child, msgs [][]byte, wait int, lastID string) outcome {
 		got++
 		if bytes.Contains(m, []byte(lastID)) {
 			sawLast = true
+			// the last sentinel is answered: a reply that is still missing gets ten more seconds
+			conn.c.SetReadDeadline(time.Now().Add(10 * time.Second))
 		}
 	}
 	return outcome{body: all}
@@ -1404,6 +1410,20 @@ func (h *hostileRun) verdict(transport string, sent []byte, tag string, docs []d
 	}
 	h.out.Oracle(ok, "every-request-gets-a-response-or-clean-close", Tup(transport, clip(sent), why, o.terr, I64(int64(o.status)), clip(o.body)))
 	h.out.Count(fmt.Sprintf("hostile:%s:%s:%s", transport, tag, classOf(docs, got, o)))
+	for _, d := range got {
+		for _, r := range d.replies {
+			if !r.crashed {
+				continue
+			}
+			for i := range docs {
+				for j := range docs[i].elems {
+					if m := &docs[i].elems[j].m; m.idKind == idVal && m.idCanon == r.idCanon {
+						h.out.Count("hostile:method-panic-contained:" + m.method)
+					}
+				}
+			}
+		}
+	}
 	if emit {
 		h.emitCase(transport, docs, got, tag)
 	}
